@@ -223,6 +223,8 @@ func adminLemma(idx int, p string) {
 			by, byFound := h.K.GetPerMessageBurnLimit(ctx, h.LimitDenom)
 			sameKey := h.LimitDenom == verifrt.Lower(h.M.Local)
 			verifrt.Assert("C19/set-limit/stored-under-lower-cased-denom", verifrt.Implies(ok, verifrt.All(found, verifrt.LowerEq(got.Denom, h.M.Local))))
+			// whether the denom already had a limit or not, the stored amount is the requested one
+			verifrt.Assert("C19/set-limit/stores-requested-amount", verifrt.Implies(verifrt.All(ok, found), verifrt.IntEq(got.Amount, h.M.Limit)))
 			verifrt.Assert("C19/set-limit/bystander-untouched", verifrt.Implies(verifrt.All(ok, !sameKey), verifrt.All(byFound, verifrt.IntEq(by.Amount, h.LimitAmount))))
 		}
 	}
